@@ -192,6 +192,25 @@ def rule_timer_cancel(ctx, res):
         res.bad('TABLE', b.path, 'cancel(t) drops the armed entry or removes t from the queue', detail=str(e), key='timer-cancel')
 
 
+def rule_request_mark_sites(ctx, res):
+    """Who may record "this node has queried us" (`Node::remote_request`, which alone makes a node that never answered count as
+    good): only the four query arms of handle_incoming, for the sender of the query being answered.  A send path of this
+    node's own queries (search rounds, refresh, bootstrap) records `local_request` instead; if it recorded a remote request,
+    every node merely named by someone would turn good the moment it is pinged, answered or not."""
+    import re
+    sites = [x for x in ctx.calls_matching(r'^node::Node::remote_request$') if not ctx.is_derived(x.body.path)]
+    res.sites += len(sites)
+    fam = re.compile(r'^handler::DhtHandler::handle_incoming(::\{|$)')
+    bad = [x for x in sites if not fam.match(x.body.path)]
+    res.check(not bad and len(sites) >= 4, 'WHO', 'node::Node::remote_request', 'a node is marked as having queried us only in the query arms of handle_incoming (this node\'s own sends record local_request)',
+              detail=str(bad[:4]) if bad else '%d sites' % len(sites), key='remote-request-callers')
+    own = [x for x in ctx.calls_matching(r'^node::Node::local_request$') if not ctx.is_derived(x.body.path)]
+    res.sites += len(own)
+    bad2 = [x for x in own if fam.match(x.body.path)]
+    res.check(not bad2 and len(own) >= 1, 'WHO', 'node::Node::local_request', 'a sent query is recorded on this node\'s send paths (search rounds, announce, refresh, bootstrap), never while answering someone else\'s query',
+              detail=str(bad2[:4]) if bad2 else '%d sites' % len(own), key='local-request-callers')
+
+
 def rule_no_addr_canonicalisation(ctx, res):
     """IP identity: an address is used as it arrived.  The library never folds one address into another
     (`to_canonical`, `to_ipv4`, `to_ipv4_mapped`, `to_ipv6_mapped`, `to_ipv6_compatible`): tokens are bound to the exact
